@@ -133,8 +133,8 @@ let handle (p : string) : string =
     let t = txt h in
     let raw = match inet_pton4 (cstr t) with None -> "none" | Some a -> hx a in
     (match ipv4_from_string inet_pton4 t with
-     | None -> Printf.sprintf "raw=%s;ok=0;class=ip4:reject" raw
-     | Some a -> Printf.sprintf "raw=%s;ok=1;a=%s;class=ip4:accept" raw (hx a))
+     | None -> Printf.sprintf "lraw=%s;ok=0;class=ip4:reject" raw
+     | Some a -> Printf.sprintf "lraw=%s;ok=1;a=%s;class=ip4:accept" raw (hx a))
   | ["ip4v"; h] ->
     let s = ipv4_to_string inet_ntop4 (txt h) in
     Printf.sprintf "s=%s;%s;class=ip4v" (hx s)
@@ -159,7 +159,7 @@ let handle (p : string) : string =
     let t = txt h in
     let a = cid_from_string uuid_parse t in
     let raw = match uuid_parse (cstr t) with None -> "none" | Some u -> hx u in
-    Printf.sprintf "a=%s;s=%s;nil=%s;raw=%s;class=cid:%s" (hx a) (hx (cid_to_string uuid_unparse a))
+    Printf.sprintf "a=%s;s=%s;nil=%s;lraw=%s;class=cid:%s" (hx a) (hx (cid_to_string uuid_unparse a))
       (bool01 (a = nil_uuid)) raw (if raw = "none" then "reject" else "accept")
   | ["cidv"; h] ->
     let u = txt h in
@@ -169,14 +169,14 @@ let handle (p : string) : string =
   | [("strtoull" | "strtoul") as f; base; h] ->
     let t = txt h in
     let (v, e), rest = (if f = "strtoull" then strtoull else strtoul) (n_of_int (ios base)) t in
-    Printf.sprintf "v=%s;e=%s;end=%s;class=%s%s:%s" (string_of_n v) (bool01 e) (string_of_n (end_offset t rest))
+    Printf.sprintf "lv=%s;le=%s;lend=%s;class=%s%s:%s" (string_of_n v) (bool01 e) (string_of_n (end_offset t rest))
       f base (if e then "erange" else if end_offset t rest = N0 then "noconv" else "conv")
   | [("strtoll" | "strtol") as f; base; h] ->
     let t = txt h in
     let (v, e), rest = (if f = "strtoll" then strtoll else strtol) (n_of_int (ios base)) t in
-    Printf.sprintf "v=%s;e=%s;end=%s;class=%s%s:%s" (string_of_z v) (bool01 e) (string_of_n (end_offset t rest))
+    Printf.sprintf "lv=%s;le=%s;lend=%s;class=%s%s:%s" (string_of_z v) (bool01 e) (string_of_n (end_offset t rest))
       f base (if e then "erange" else if end_offset t rest = N0 then "noconv" else "conv")
-  | ["atoi"; h] -> Printf.sprintf "v=%s;class=atoi" (string_of_z (atoi (txt h)))
+  | ["atoi"; h] -> Printf.sprintf "lv=%s;class=atoi" (string_of_z (atoi (txt h)))
   | ["split"; d; h] ->
     let toks = string_split (txt d) (txt h) in
     Printf.sprintf "n=%d;t=%s;class=split" (List.length toks) (String.concat "," (List.map hx toks))
